@@ -69,7 +69,7 @@ Lemma fp_so_sync o : pres R (so_sync sd o).
 Proof. unfold so_sync. psolve; try apply fp_select_init; try apply fp_db_select_one. Qed.
 Lemma fp_so_expire o : pres R (so_expire cfg sd o).
 Proof.
-  unfold so_expire. pstep; [psolve|]. psolve. apply fp_cache_expire.
+  unfold so_expire. pstep; [psolve|]. pstep; [psolve|]. pstep; [psolve|]. psolve. apply fp_cache_expire.
 Qed.
 Lemma fp_so_destroy o : pres R (so_destroy sd o).
 Proof.
